@@ -477,7 +477,7 @@ func dhcpPoolAdapter(g Geometry, reserved int) Adapter {
 		name = fmt.Sprintf("dhcp.Pool-res%d", reserved)
 	}
 	return Adapter{Impl: name, Geo: g, Mode: "session", Usable: usable,
-		Ops: []string{"alloc", "release"}, subID: macSubID,
+		Ops: []string{"alloc", "release", "relunit"}, subID: macSubID,
 		mk: func() *impl {
 			p, err := dhcp.NewPool(dhcp.PoolConfig{ID: 1, Name: "p", Network: g.CIDR, Gateway: g.UnitIP(1).String(), LeaseTime: time.Hour, ReservedStart: reserved, ReservedEnd: reserved})
 			if err != nil {
@@ -507,6 +507,9 @@ func dhcpPoolAdapter(g Geometry, reserved int) Adapter {
 				p.Release(g.UnitIP(u))
 				return nil
 			}
+			// Release is by address (the server calls it with whatever address a lease record carries, on
+			// RELEASE and again on expiry): any address, held, free, reserved or foreign
+			im.relunit = func(u int) error { p.Release(g.UnitIP(u)); return nil }
 			im.stats = func() (int, int) { s := p.Stats(); return s.Allocated, s.Total }
 			return im
 		}}
